@@ -992,3 +992,80 @@ class DatasetReindexAxis(Contract):
 
     def canaries(self, S, case, env, result):
         yield "result-has-no-x-labels", S.n(result.axes["x"].values) == 0
+
+
+class DatasetDatasetOp(Contract):
+    """ds1 op ds2 (+ - * /) for two Datasets a(x), b(x, y), c(y) with their own data over EQUAL labels (distinct axis objects):
+    a new Dataset holding, for every variable name the two have in common (in ds1's order), NumPy's op of ds1's and ds2's
+    cells at every coordinate, over axes with the operands' labels, satisfying the shared-axes invariant; a variable only
+    one of them has is left out (the `other-keys` cases: ds2 lacks c and has a d of its own); both operands are untouched.
+    (Datasets over DIFFERENT labels are aligned variable by variable first: that composition is exercised by the bounded
+    stand-in only.)  [C14, C13]"""
+    target = "dimarray.dataset:Dataset._binary_op"
+    props = ("C14",)
+    inlined = ("OpMixin operators", "Dataset._binary_op", "Dataset.reindex_like -> reindex_like", "DimArray._binary_op -> operation (own contract: Operation, C04)",
+               "align (own contract: Align, C06)", "Dataset.__setitem__ (own contract: DatasetSetItem, C13)")
+    max_paths = 900
+
+    def cases(self, tier):
+        for op in ("add", "subtract", "multiply", "true_divide"):
+            for variant in ("same-keys", "other-keys"):
+                if tier == "quick" and variant == "other-keys" and op != "subtract":
+                    continue
+                yield {"name": "%s-%s" % (op, variant), "op": op, "variant": variant}
+
+    bound_names = ("ds.x.n", "ds.y.n")
+
+    def setup(self, S, case):
+        ds1, labels = make_dataset(S, "a(x),b(x,y),c(y)")
+        ds2, labels2 = _second_dataset(S, labels)
+        if case["variant"] == "other-keys":
+            del ds2["c"]
+            ds2["d"] = S.da.DimArray(S.arraynd("ds2.d.data", "f", (S.n(labels["x"]),)), axes=[S.da.Axis(labels["x"].copy(), "x")])
+        return {"ds1": ds1, "ds2": ds2, "labels": labels, "snap1": snapshot_ds(S, ds1), "snap2": snapshot_ds(S, ds2)}
+
+    def call(self, fn, env):
+        import operator
+        f = {"add": operator.add, "subtract": operator.sub, "multiply": operator.mul, "true_divide": operator.truediv}[env["case"]["op"]]
+        return f(env["ds1"], env["ds2"])
+
+    def raises(self, S, case, env):
+        return {ValueError: False, IndexError: False}
+
+    def post(self, S, case, env, result):
+        ds1, ds2, s1, s2 = env["ds1"], env["ds2"], env["snap1"], env["snap2"]
+        X, Y = env["labels"]["x"], env["labels"]["y"]
+        nx, ny = S.n(X), S.n(Y)
+        keys = ["a", "b", "c"] if case["variant"] == "same-keys" else ["a", "b"]
+        yield "returns-a-new-dataset", type(result) is type(ds1) and result is not ds1 and result is not ds2
+        ok = list(dict.keys(result)) == keys and sorted(ax.name for ax in result.axes) == ["x", "y"]
+        yield "the-common-variables-in-order;dimensions", ok
+        if not ok:
+            return
+        for c in ds_inv(S, result):
+            yield c
+        Xr, Yr = result.axes["x"].values, result.axes["y"].values
+        yield "x-labels-unchanged", S.land(S.n(Xr) == nx, S.forall(0, nx, lambda i: S.implies(i < S.n(Xr), lambda: S.at(Xr, i) == S.at(X, i))))
+        yield "y-labels-unchanged", S.land(S.n(Yr) == ny, S.forall(0, ny, lambda j: S.implies(j < S.n(Yr), lambda: S.at(Yr, j) == S.at(Y, j))))
+        op = case["op"]
+        f = lambda r, u, v: S.same(r, S.op(op, u, v))
+        d1, d2 = s1["data"], s2["data"]
+        a, b = _var(result, "a"), _var(result, "b")
+        ok = tuple(a.dims) == ("x",) and tuple(b.dims) == ("x", "y") and ("c" not in keys or tuple(_var(result, "c").dims) == ("y",))
+        yield "dims-of-the-variables-kept", ok
+        if not ok:
+            return
+        yield "a:cell-by-cell", S.land(S.n(a.values) == nx, S.forall(0, nx, lambda i: f(S.at(a.values, i), S.at(d1["a"], i), S.at(d2["a"], i))))
+        yield "b:cell-by-cell", S.land(S.shape(b.values)[0] == nx, S.shape(b.values)[1] == ny,
+                                       S.forall_nd([nx, ny], lambda i, j: f(S.at(b.values, i, j), S.at(d1["b"], i, j), S.at(d2["b"], i, j))))
+        if "c" in keys:
+            c = _var(result, "c")
+            yield "c:cell-by-cell", S.land(S.n(c.values) == ny, S.forall(0, ny, lambda j: f(S.at(c.values, j), S.at(d1["c"], j), S.at(d2["c"], j))))
+        yield "no-axis-object-shared-with-an-operand", all(ax is not bx for ax in result.axes for bx in list(s1["axes"]) + list(s2["axes"]))
+        for cl in unchanged_ds(S, ds1, s1):
+            yield ("operand-1:" + cl[0],) + tuple(cl[1:])
+        for cl in unchanged_ds(S, ds2, s2):
+            yield ("operand-2:" + cl[0],) + tuple(cl[1:])
+
+    def canaries(self, S, case, env, result):
+        yield "result-has-no-y-labels", S.n(result.axes["y"].values) == 0
